@@ -54,10 +54,17 @@ def cases(ctx, budget):
             return gen.render_lit(rng, v), ("lit", v)
         if way == "value":
             return "value(@.%s)" % name, ("call", "value", [("rel", [("child", [("name", name)])])])
+        if way == "length":
+            return "length(@.%s)" % name, ("call", "length", [("rel", [("child", [("name", name)])])])
         return "@.%s" % name, ("rel", [("child", [("name", name)])])
 
+    def eff(v, way):
+        """the comparand the way yields: length() of a string, array or object is its length, of anything else (a missing member included) Nothing"""
+        if way != "length": return v
+        return len(v) if (v is not MISSING and isinstance(v, (str, list, dict))) else MISSING
+
     def ways_for(v):
-        w = ["query", "value"]
+        w = ["query", "value", "length"]
         if v is not MISSING and (v is None or isinstance(v, (bool, int, float, str))) and not (isinstance(v, float) and abs(v) >= 1e16) \
                 and not (isinstance(v, float) and v != 0 and abs(v) < 1e-4) and not (isinstance(v, int) and abs(v) > (1 << 53)):
             w.append("lit")
@@ -83,6 +90,7 @@ def cases(ctx, budget):
         except Exception as ex:
             out = wire.enc_exception(ex)[:2]
         tail = gen.enc_segs(q) + wire.enc_json(data)
+        a, b = eff(a, wa), eff(b, wb)
         ca = [0] if a is MISSING else [1] + wire.enc_json(a)
         cb = [0] if b is MISSING else [1] + wire.enc_json(b)
         sel = [0, 1] + wire.enc_node((0,), doc)
